@@ -26,6 +26,7 @@ const (
 func (v Verdict) String() string { return [...]string{"unsat", "sat", "unknown"}[v] }
 
 type Solver struct {
+	MaxWall time.Duration // longest single query
 	kind    string // z3 | z3-new | cvc5
 	cmd     *exec.Cmd
 	in      io.WriteCloser
@@ -207,7 +208,13 @@ func (s *Solver) undefine(lv *slevel) {
 // between queries: only the part of pc that differs from the previous query is re-sent.
 func (s *Solver) Check(pc []*Term, extra []*Term, wantModel bool, values map[string]*Term) (Verdict, Model) {
 	t0 := time.Now()
-	defer func() { s.Wall += time.Since(t0) }()
+	defer func() {
+		d := time.Since(t0)
+		s.Wall += d
+		if d > s.MaxWall {
+			s.MaxWall = d
+		}
+	}()
 	s.Queries++
 	if s.dead {
 		s.restart()
